@@ -25,7 +25,12 @@ META = {
     "note": "Trusted: Lean kernel + {propext, Classical.choice, Quot.sound}; shapely length/interpolate contract (EdgeOk) and "
     "pyproj numerics are parameters (round-trip precision is sampled, not proved); IEEE rounding not modelled; "
     "wrapdateline/check_and_fix (default False) not modelled; the model follows branch fix-C07 (F3 length test, "
-    "non-positive resolution no longer loops forever).",
+    "non-positive resolution no longer loops forever).  NOT mirrored in the Lean model (inventory of the anchor files): geom.py — "
+    "chop_along_antimeridian / projected_lon (shapely split: a parameter `chop` of toCrsFull), maybe_fix / Geometry.filter / dropna / "
+    "buffer(0) (check_and_fix=True; oracle only), _auto_resolution's sqrt(area)*4/100 (parameter autoRes), lonlat_bounds (safe/quick "
+    "wrap logic), mid_longitude, Geometry.geojson/simplify/explore, shapely's interpolate/length beyond the EdgeOk contract; crs.py — "
+    "_make_crs_transform's id()-keyed cache and _crs_cache (histories are oracle-only: churn, always_xy), the scalar / tuple branch "
+    "of transformer_to_crs (no harmonisation there), crs_units_per_degree, CRS.utm/_pick_best_crs, valid_region.",
     "technique": "Lean 4 proof over hand model + differential correspondence with real code",
     "design_ref": "DESIGN.md §4 C07",
 }
@@ -1247,6 +1252,8 @@ def run_to_crs_pyproj(R: Run):
         for _ in range(R.pick(1, 6)):
             kinds, _r = shapes_for(rng, rng.choice(["axis", "pyth"]))
             for kind, shp in kinds.items():
+                if R.quick and kind in ("ring", "polygon", "multipoint"):
+                    continue  # covered by line / polygon+holes / point in the quick tier
                 insrc = _place(shp, REGIONS[reg], rng, to_src)
                 g = gm.Geometry(insrc, src)
                 span = max(insrc.bounds[2] - insrc.bounds[0], insrc.bounds[3] - insrc.bounds[1], 1e-9)
@@ -1256,6 +1263,8 @@ def run_to_crs_pyproj(R: Run):
                             continue
                         if R.quick and o["wrapdateline"] and kind not in ("line", "polygon+holes", "multipolygon", "collection"):
                             continue  # the antimeridian line is re-projected on every call (18 ms)
+                        if R.quick and o["check_and_fix"] and kind not in ("line", "polygon+holes", "multipolygon", "collection"):
+                            continue
                         opts = dict(o, resolution=res)
                         if o["check_and_fix"]:
                             # `maybe_fix` only leaves valid results alone: judge those
@@ -1355,6 +1364,154 @@ def run_to_crs_pyproj(R: Run):
                      "automatic resolution 0 -> densify never leaves its loop")
         except BaseException as e:  # pylint: disable=broad-except
             R.oracle(False, "to-crs-raises", case, repr(e))
+
+
+def run_growth(R: Run):
+    """exact correspondence for clip_lon180, the wrapdateline tail of to_crs, Geometry.transform, sides and
+    BoundingBox.to_crs (stand-in exact projection where a transformer is involved)"""
+    from affine import Affine
+    from shapely import geometry as sg
+
+    from .c01 import Pool
+
+    gm, crsmod = _mods()
+    rng = R.rng
+    pool = Pool(False)
+    ents = pool.entries[:6]
+
+    # ---- clip_lon180(geom, tol): dyadic tolerances (180 - tol exact), longitudes on / around the threshold
+    for tol in (0.5, 0.125, 2.0 ** -10):
+        th = 180 - tol
+        xs = [180.0, -180.0, th, -th, th - 2.0 ** -12, -(th - 2.0 ** -12), th + 2.0 ** -12, 179.0 - tol, -170.0, 10.0, 0.0, -0.5,
+              181.0, -185.5, 360.0]
+        for _ in range(R.pick(12, 250)):
+            def pts(n):
+                return [(rng.choice(xs), rng.randint(-40, 40) / 4) for _ in range(n)]
+
+            def ring(n):
+                p = pts(n)
+                return p + [p[0]]
+
+            kinds = {
+                "point": sg.Point(pts(1)[0]), "multipoint": sg.MultiPoint(pts(4)), "line": sg.LineString(pts(rng.randint(2, 6))),
+                "ring": sg.LinearRing(ring(4)), "polygon+hole": sg.Polygon(ring(5), [ring(3)]),
+                "multiline": sg.MultiLineString([pts(3), pts(2)]),
+                "multipolygon": sg.MultiPolygon([sg.Polygon(ring(4)), sg.Polygon(ring(3), [ring(3)])]),
+                "collection": sg.GeometryCollection([sg.Point(pts(1)[0]), sg.LineString(pts(3)), sg.Polygon(ring(4)),
+                                                     sg.GeometryCollection([sg.MultiPoint(pts(2))])]),
+            }
+            for kind, shp in kinds.items():
+                box: Dict[str, Any] = {}
+
+                def f():
+                    try:
+                        with warnings.catch_warnings():
+                            warnings.simplefilter("ignore")
+                            out = gm.clip_lon180(gm.Geometry(shp, "EPSG:4326"), tol)
+                    except BaseException as e:  # pylint: disable=broad-except
+                        return err_s(e)
+                    box["out"] = out
+                    return enc_geom(out.geom)
+
+                R.corr(f"c07 clip {frac_s(tol)} {enc_geom(shp)}", f, sig=f"clip|{kind}")
+                if "out" in box:
+                    out = box["out"]
+                    ok = skel_of(out.geom) == skel_of(shp) and str(out.crs) == "EPSG:4326"
+                    for ci, co in zip(rings_of(shp), rings_of(out.geom)):
+                        for (x, y), (u, v) in zip(ci, co):
+                            ok = ok and v == y and ((abs(x) < th and u == x) or (abs(x) >= th and abs(u) == 180))
+                    R.oracle(ok, "clip-lon180-moves-wrong-vertex", {"fn": "clip_lon180", "tol": tol, "wkt": shp.wkt, "kind": kind},
+                             "clip_lon180 changed a latitude / a longitude away from the antimeridian, or the structure",
+                             sig=f"clip|{kind}")
+
+    # ---- Geometry.transform / A * geom, sides
+    crsargs = [("U", "unset"), ("N", None)] + [(pool.rec(e[2]), e[2]) for e in ents[1:4]]
+    for _ in range(R.pick(6, 40)):
+        kinds, _r = shapes_for(rng, rng.choice(["axis", "pyth"]))
+        A = Affine(rng.choice([1, 2, -0.5]), rng.choice([0, 0.25]), rng.randint(-8, 8) / 2, rng.choice([0, -1]), rng.choice([1, -2, 0.5]),
+                   rng.randint(-8, 8) / 4)
+        atok = ";".join(frac_s(v) for v in tuple(A)[:6])
+        for kind, shp in kinds.items():
+            for e in ents[:4]:
+                for tok, arg in crsargs:
+                    g = gm.Geometry(shp, e[2])
+
+                    def ft():
+                        with warnings.catch_warnings():
+                            warnings.simplefilter("ignore")
+                            out = (A * g) if (tok == "U" and rng.random() < 0.5) else (
+                                g.transform(A) if tok == "U" else g.transform(A, crs=arg))
+                        return pool.rec(out.crs) + " " + enc_geom(out.geom)
+
+                    R.corr(f"c07 transform {atok} {tok} {pool.rec(e[2])} {enc_geom(shp)}", ft, sig=f"transform|{kind}|{tok[:1]}")
+        for kind in ("polygon", "polygon+holes"):
+            shp = kinds[kind]
+
+            def fs():
+                return "[" + ",".join(f"{pt_s(s.coords[0])}>{pt_s(s.coords[1])}" for s in gm.sides(gm.Geometry(shp, "EPSG:3857"))) + "]"
+
+            R.corr(f"c07 sides {pts_s(shp.exterior.coords)}", fs, sig="sides")
+
+    # ---- wrapdateline tail of to_crs and BoundingBox.to_crs, with the exact stand-in projection as transformer
+    saved = crsmod._make_crs_transform  # pylint: disable=protected-access
+    crsmod._make_crs_transform = lambda a, b, always_xy: Fake(pool._obj[id(a)], pool._obj[id(b)])  # pylint: disable=protected-access
+    eps_tok = frac_s(Fraction(180) - Fraction(180 - 1e-4))
+    try:
+        for rnd in range(R.pick(2, 16)):
+            kinds, r0 = shapes_for(rng, "axis" if rnd % 2 == 0 else "pyth") if rnd % 2 else multipart_for(rng)
+            for kind, shp in kinds.items():
+                for es, et in itertools.product(ents, ents):
+                    for res in (None, r0):
+                        for wd in (False, True):
+                            g = gm.Geometry(shp, es[2])
+                            geo = bool(et[2] is not None and et[2].geographic)
+                            if wd and geo and es[2] is not None and not (es[1] == et[1]):
+                                try:
+                                    with warnings.catch_warnings():
+                                        warnings.simplefilter("ignore")
+                                        l180 = gm.projected_lon(es[2], 180, step=0.1)
+                                        dens = g if res is None else g.segmented(res)
+                                        if dens.intersects(l180):
+                                            continue  # would be chopped: `chop` is a parameter of the model
+                                except Exception:  # pylint: disable=broad-except
+                                    continue
+                            line = (f"c07 tocrsfull {pool.rec(es[2])} {pool.rec(et[2])} {'T' if geo else 'F'} {'T' if wd else 'F'} "
+                                    f"{eps_tok} {'N' if res is None else frac_s(res)} {enc_geom(shp)}")
+
+                            def fw():
+                                try:
+                                    with warnings.catch_warnings():
+                                        warnings.simplefilter("ignore")
+                                        with time_limit():
+                                            out = g.to_crs(et[2], resolution=res, wrapdateline=wd)
+                                except BaseException as e:  # pylint: disable=broad-except
+                                    return err_s(e)
+                                return pool.rec(out.crs) + " " + enc_geom(out.geom)
+
+                            R.corr(line, fw, sig=f"tocrsfull|{'wd' if wd else 'plain'}|{'geo' if geo else 'proj'}|{kind}")
+        for _ in range(R.pick(20, 400)):
+            s2 = 2.0 ** rng.randint(-2, 3)
+            l, b = rng.randint(-16, 16) * s2, rng.randint(-16, 16) * s2
+            w, h = 2.0 ** rng.randint(0, 4) * s2, 2.0 ** rng.randint(0, 4) * s2
+            r_, t_ = (l + w, b + h) if rng.random() < 0.8 else (l - w, b - h)   # inverted boxes too
+            for es, et in itertools.product(ents, ents):
+                for res in (None, s2 * 2.0 ** rng.randint(-2, 2), 0.0):
+                    bb = gm.BoundingBox(l, b, r_, t_, es[2])
+
+                    def fb():
+                        try:
+                            with warnings.catch_warnings():
+                                warnings.simplefilter("ignore")
+                                with time_limit(risky=(res == 0.0)):
+                                    out = bb.to_crs(et[2], resolution=res) if res is not None else bb.to_crs(et[2])
+                        except BaseException as e:  # pylint: disable=broad-except
+                            return err_s(e)
+                        return pool.rec(out.crs) + " " + " ".join(frac_s(v) for v in out.bbox)
+
+                    R.corr(f"c07 bboxtocrs {pool.rec(es[2])} {pool.rec(et[2])} {'N' if res is None else frac_s(res)} "
+                           f"{frac_s(l)} {frac_s(b)} {frac_s(r_)} {frac_s(t_)}", fb, sig="bboxtocrs|" + ("none" if es[2] is None or et[2] is None else "ok"))
+    finally:
+        crsmod._make_crs_transform = saved  # pylint: disable=protected-access
 
 
 def run_extreme_ratio(R: Run):
@@ -1477,7 +1634,7 @@ def run(R: Run):
     import time
 
     timing = {}
-    for fn in (run_densify, run_segmented, run_to_crs_model, run_float_stream, run_to_crs_pyproj, run_extreme_ratio,
+    for fn in (run_densify, run_segmented, run_to_crs_model, run_growth, run_float_stream, run_to_crs_pyproj, run_extreme_ratio,
                run_numeric_spellings):
         t0 = time.time()
         fn(R)
